@@ -108,3 +108,7 @@ RULE = ("leg A: TLC explores WbSram_MC (geometries <=2 rows x <=2-3 granules, wr
 
 def main(tier):
     return hwcheck.check("C15", tier, Adapter(), RULE)
+
+
+def replay(path):
+    return hwcheck.replay(path, [Adapter()])
